@@ -866,6 +866,12 @@ class Interp:
             # function attributes (e.g. wrapper._logger) carry no semantics here
             self.dropped.add(f"function attribute {name}")
             return
+        if isinstance(obj, NDArr) and name == "shape":
+            # `arr.shape = new_shape`: in-place reshape of this view object (never copies; NumPy raises if it would have to)
+            from .builtins_model import builtin_getattr
+            new = builtin_getattr(self, obj, "reshape")(tuple(self.iterate(value)))
+            obj.imap, obj.shape = list(new.imap), tuple(new.shape)
+            return
         raise Unsupported(f"setattr on {type(obj).__name__}")
 
     # ------------------------------------------------------------------ calls
@@ -925,6 +931,9 @@ class Interp:
 
     def instantiate(self, cls: Class, args, kwargs):
         obj = Instance(cls)
+        # an object built by its real constructor has exactly the attributes the code gives it: reading another one
+        # is an AttributeError (hasattr(..) is False), not a gap of the model
+        obj.attrs["__closed__"] = True
         init, _ = cls.lookup("__init__")
         if init is not None:
             self.call_function(init, [obj, *args], kwargs)
